@@ -104,6 +104,8 @@ def run(chk):
                 "distinct = (options, sender, level, length) jobs")
     # design-level account of the open finding (McastRelay.tla): a receiver that re-broadcasts each fragment before it reads
     # the next one loses fragments for some timing combinations; without the relay it never does
+    from checks import netnode
+    netnode.conform(chk, chk.tier == "quick")     # multicasts / relays of real nodes followed by the L2 model NetNode.tla
     rp = tlc.mc("McastRelay", "McastRelay_plain", timeout=300)
     r2 = tlc.mc("McastRelay", "McastRelay_relay2", timeout=300)
     rr = tlc.run("McastRelay", "McastRelay_relay", timeout=300)
